@@ -46,16 +46,16 @@ type Result struct {
 
 // Env is handed to a scenario.
 type Env struct {
-	T    *testing.T
-	C    *choice.Stream
-	S    *simrt.Sched
-	N    *simnet.Net
-	Tier string
-	Seed uint64
-	Keep bool
-	Res  *Result
-	W    *world.World
-	StepCap int64
+	T        *testing.T
+	C        *choice.Stream
+	S        *simrt.Sched
+	N        *simnet.Net
+	Tier     string
+	Seed     uint64
+	Keep     bool
+	Res      *Result
+	W        *world.World
+	StepCap  int64
 	raceOnly bool
 }
 
